@@ -20,6 +20,7 @@ func init() {
 			ruleOptionScope(c)
 			ruleAddCodecs(c)
 			ruleKeySelf(c)
+			ruleMarshalViaCodec(c)
 			ruleDefaultInit(c)
 			ruleTagExact(c)
 			ruleSliceWrapOnly(c)
